@@ -18,6 +18,9 @@ use crate::process::Process;
 use crate::registry::ProcessRegistry;
 use erltf::OwnedTerm;
 use erltf::types::Atom;
+#[cfg(edp_verif)]
+use edp_client::verif::DetHashMap as HashMap;
+#[cfg(not(edp_verif))]
 use std::collections::HashMap;
 use std::future::Future;
 use std::pin::Pin;
